@@ -84,3 +84,20 @@ Proof.
     destruct (c01_wild_discovery_mono_subsumes_proved (k_cfg k) (k_hist k) Hh Hi' Hnew Hundo Hsc) as (Hwf & Hmono).
     rewrite Hf, Hwf, Hmono, Hh, Hi. reflexivity.
 Qed.
+
+(* the input-level filter of c01_wild_first_partial lies inside the filter above *)
+Definition c01_wild_first_thm_scope (k : fk_case) : bool :=
+  c01_wild_disc_thm_scope k && above_first_b (k_cfg k) (k_hist k).
+
+Lemma c01_wild_first_thm_scope_sub k : c01_wild_first_thm_scope k = true -> c01_wild_thm_scope k = true.
+Proof.
+  unfold c01_wild_first_thm_scope, c01_wild_thm_scope. intros H. apply andb_true_iff in H as [Hd Hab]. rewrite Hd. cbn [andb].
+  unfold c01_wild_disc_thm_scope, filt_nu in Hd.
+  apply andb_true_iff in Hd as [H Hm]. apply andb_true_iff in H as [Hf Hwf]. apply andb_true_iff in Hf as [Hnew Hundo].
+  destruct c01_wild_first_proved as [P1 P2].
+  destruct (k_mode k) as [r0|r0|] eqn:Em.
+  - apply negb_true_iff, N.eqb_neq in Hm. exact (proj2 (P1 (k_cfg k) r0 (LExcl r0) (k_hist k) (or_introl eq_refl) Hnew Hundo Hwf Hm Hab)).
+  - apply negb_true_iff, N.eqb_neq in Hm. exact (proj2 (P1 (k_cfg k) r0 (LIncl r0) (k_hist k) (or_intror eq_refl) Hnew Hundo Hwf Hm Hab)).
+  - apply andb_true_iff in Hm as [Hh Hi]. apply negb_true_iff in Hi.
+    exact (proj2 (P2 (k_cfg k) (k_hist k) Hh Hi Hnew Hundo Hwf Hab)).
+Qed.
